@@ -22,6 +22,7 @@ func init() {
 			c.run("C17-R7", "GUARD-DOM: relay adoption gate", c17R7)
 			c.run("C17-R8", "LAUNCH: accept loops, greeting checks, the timed dial and the tunnel pumps are started with go", c17Launch)
 			c.run("C17-S2", "shared with C14-R7: the relay routes its own lines through the tunnel only when both ends agreed to use it (else the answer lands in a connection nobody reads and the in-band fallback fails)", c14R7)
+			c.run("C17-S3", "shared with C13-R7: each tunnel pump reads its own connection (bytes of one end are never looped back to it)", c13Sides)
 		})
 }
 
